@@ -24,7 +24,7 @@ import ast
 
 from ..core import Ctx, Ob, ok, unres, viol
 from ..flow import LocalDefs
-from ..model import ClassInfo, FuncInfo, dotted, is_self_attr, unparse, walk_no_nested
+from ..model import AnalysisError, ClassInfo, FuncInfo, dotted, is_self_attr, unparse, walk_no_nested
 
 SEMIRING = "cirkit.backend.torch.semiring.SemiringImpl"
 
@@ -674,4 +674,46 @@ def r11m(ctx: Ctx) -> list[Ob]:
             else:
                 obs.append(viol("R11m", c.qualname, inst, f"log_unnormalized_likelihood is a torch.distributions log_prob (already normalised{', plus ' + str(sorted(addends)) if addends else ''}) but log_partition_function returns `{unparse(r.value)[:60]}` computed from {sorted(attrs) or 'other quantities'}: the normaliser is counted twice -- the layer's density no longer sums to one and integrate() is off by that factor", loc))
     obs.append(ok("R11m", "cirkit.backend.torch.layers.input", "normalised-likelihoods", f"{n_cls} exponential-family layer(s) whose likelihood is a torch.distributions log_prob", "", nontrivial=False))
+    return obs
+
+
+def r11n(ctx: Ctx) -> list[Ob]:
+    """R11n -- the logarithm that closes the stable reduce of a log-space semiring has a backward that
+    is safe at zero.
+
+    ``apply_reduce`` returns ``log(func(exp(x - m))) + m``.  A unit whose value is exactly 0 (an
+    indicator-like input at an unsupported state, a product with one) makes ``func(..)`` zero for that
+    unit; the circuit output can still be non-zero through other units, and C13 promises finite
+    gradients wherever the function value is non-zero.  ``torch.log`` back-propagates ``0 / 0 = nan``
+    into the parameters below that unit; the repository's own guarded logarithms (``safelog`` /
+    ``csafelog``, autograd functions whose backward R11g / R11h decide) give 0.  The real and the
+    complex semiring are siblings and have to agree on this."""
+    obs: list[Ob] = []
+    safe = set()
+    um = ctx.repo.modules.get("cirkit.backend.torch.utils")
+    if um is not None:
+        for n in um.tree.body:
+            tgt = n.targets[0] if isinstance(n, ast.Assign) and len(n.targets) == 1 else (n.target if isinstance(n, ast.AnnAssign) else None)
+            val = getattr(n, "value", None)
+            if isinstance(tgt, ast.Name) and isinstance(val, ast.Attribute) and val.attr == "apply":
+                safe.add(tgt.id)
+    for c in semirings(ctx):
+        f = ctx.repo.lookup(c, "apply_reduce")
+        if f is None or f.is_abstract:
+            continue
+        _, fam = family_of(ctx, c)
+        if fam != "log":
+            continue
+        ld = LocalDefs(f.node)
+        for r in [r for r in walk_no_nested(f.node) if isinstance(r, ast.Return) and r.value is not None]:
+            logs = [(dotted(k.func) or "").split(".")[-1] for e in [r.value, *ld.expand(r.value)] for k in ast.walk(e) if isinstance(k, ast.Call) and (dotted(k.func) or "").split(".")[-1] in LOG_LIKE | {"log"}]
+            loc = f"{f.module.relpath}:{r.lineno}"
+            if not logs:
+                continue
+            if all(l in safe for l in logs):
+                obs.append(ok("R11n", f.qualname, "log:safe-backward", f"closes with {sorted(set(logs))}, an autograd function of cirkit.backend.torch.utils with a guarded backward", loc))
+            else:
+                obs.append(viol("R11n", f.qualname, "log:safe-backward", f"closes with {sorted(set(logs) - safe)}: its backward is grad / x, nan for a unit that evaluates to exactly 0 -- the gradients of the parameters below that unit are nan although the circuit output is non-zero (the sibling semiring uses a guarded logarithm)", loc))
+    if not obs:
+        raise AnalysisError("R11n: no log-space semiring with an apply_reduce (anchor vanished)")
     return obs
